@@ -217,10 +217,24 @@ fn apply(doc: &mut Value, exp: &mut Value, m: &Mutn) -> bool {
 
 fn parse_debug(kind: &str, text: &str) -> Result<Result<String, String>, String> {
     par::catch(|| {
+        // the three routes a JSON document takes into the types: borrowed text, an already parsed
+        // (owned) value, a byte reader; they must agree, otherwise the route is part of the answer
+        fn three<T: serde::de::DeserializeOwned + std::fmt::Debug>(text: &str) -> Result<String, String> {
+            let a = serde_json::from_str::<T>(text).map(|v| format!("{v:?}")).map_err(|e| e.to_string());
+            let b = serde_json::from_str::<Value>(text).map_err(|e| e.to_string()).and_then(|v| serde_json::from_value::<T>(v).map(|v| format!("{v:?}")).map_err(|e| e.to_string()));
+            let c = serde_json::from_reader::<_, T>(text.as_bytes()).map(|v| format!("{v:?}")).map_err(|e| e.to_string());
+            // a document the text route rejects is not judged further (the statement is about
+            // documents that parse); one it accepts must give the same value by the other routes
+            match (&a, &b, &c) {
+                (Err(_), _, _) => a,
+                (Ok(x), Ok(y), Ok(z)) if x == y && y == z => a,
+                _ => Ok(format!("ROUTES-DISAGREE from_str={} from_value={} from_reader={}", a.map(|s| s.len().to_string()).unwrap_or_else(|e| e), b.map(|s| s.len().to_string()).unwrap_or_else(|e| e), c.map(|s| s.len().to_string()).unwrap_or_else(|e| e))),
+            }
+        }
         if kind == "create" {
-            serde_json::from_str::<CredentialCreationOptions>(text).map(|v| format!("{v:?}")).map_err(|e| e.to_string())
+            three::<CredentialCreationOptions>(text)
         } else {
-            serde_json::from_str::<CredentialRequestOptions>(text).map(|v| format!("{v:?}")).map_err(|e| e.to_string())
+            three::<CredentialRequestOptions>(text)
         }
     })
 }
@@ -525,6 +539,9 @@ fn named_member_one(kind: &str, path: &str, name: &str, case: &Value) -> Vec<Fin
             o.insert(name.to_string(), val.clone());
         }
         let got = parse_debug(kind, &d.to_string());
+        if std::env::var("VCHECK_DEBUG").is_ok() {
+            eprintln!("member {m}: want={:?}\n got={:?}", want.as_ref().map(|r| r.as_ref().map(|s| s.chars().take(300).collect::<String>())), got.as_ref().map(|r| r.as_ref().map(|s| s.chars().take(300).collect::<String>())));
+        }
         match (want, got) {
             (Ok(Ok(w)), Ok(Ok(g))) if w != g => {
                 fs.push(Finding::new(format!("doc={kind}/kind=undeclared-member-read-as-declared"), format!("in object {path:?} the undeclared member {name:?} carrying the value of {m:?} is not ignored: the document parses differently from the one without {m:?}"), case.clone()));
@@ -837,7 +854,7 @@ pub fn run(ctx: &Ctx) -> Result<Run, String> {
     }
     let mut run = Run::from_stats(
         "exploration",
-        "creation and request options: all 256 presence patterns of the optional members x one presentation change at a time (each binary member as array / base64url +- padding / base64 +- padding, timeout and alg as number / numeric string / integral float / float string, an unknown scalar/object/array member at every position of every object, an unknown string for every enumeration, an unknown entry at every index of every lenient list incl. pubKeyCredParams entries with an unknown alg in every member order and with trailing unknown members); thorough: all pairs of changes on the full document. Oracle: Debug of the parsed value equals that of the canonical presentation (unknown enum = member absent, unknown list entry = entry absent). Named unknown members: every identifier-like string literal of the types and client crates (and near-miss spellings of the declared names) as the name of an undeclared member of every object, with seven value shapes, and standing in for each declared member of that object (it must stay ignored; the one spelling the pinned tree documents, allowList, is exempt). Plus base64url encode/decode identity on all byte strings up to length 2 (3 thorough) and patterned lengths 4..64 against an own RFC 4648 codec; every credential emitted by 72 register+authenticate ceremonies re-parsed from its JSON; CollectedClientData member order for 3 extra-data types x 16 orders of 0..3 unknown members x crossOrigin x type, and the client data emitted by Client::register/authenticate for five caller-supplied extras with a standard member's name at each position. Non-trivial = distinct case with at least one presentation change / non-empty input",
+        "creation and request options: all 256 presence patterns of the optional members x one presentation change at a time (each binary member as array / base64url +- padding / base64 +- padding, timeout and alg as number / numeric string / integral float / float string, an unknown scalar/object/array member at every position of every object, an unknown string for every enumeration, an unknown entry at every index of every lenient list incl. pubKeyCredParams entries with an unknown alg in every member order and with trailing unknown members); thorough: all pairs of changes on the full document. Every document is parsed through three routes (borrowed text, an owned serde_json::Value, a byte reader) which must agree. Oracle: Debug of the parsed value equals that of the canonical presentation (unknown enum = member absent, unknown list entry = entry absent). Named unknown members: every identifier-like string literal of the types and client crates (and near-miss spellings of the declared names) as the name of an undeclared member of every object, with seven value shapes, and standing in for each declared member of that object (it must stay ignored; the one spelling the pinned tree documents, allowList, is exempt). Plus base64url encode/decode identity on all byte strings up to length 2 (3 thorough) and patterned lengths 4..64 against an own RFC 4648 codec; every credential emitted by 72 register+authenticate ceremonies re-parsed from its JSON; CollectedClientData member order for 3 extra-data types x 16 orders of 0..3 unknown members x crossOrigin x type, and the client data emitted by Client::register/authenticate for five caller-supplied extras with a standard member's name at each position. Non-trivial = distinct case with at least one presentation change / non-empty input",
         true,
         stats,
     );
